@@ -493,7 +493,7 @@ def main(tier, replay):
     if os.path.isdir(corpus_dir()):
         base += ["-corpus", corpus_dir()]
     if tier == "quick":
-        res, log = run_streams(exe, "quick", "main", base + ["-budget", "80s"], timeout=600)
+        res, log = run_streams(exe, "quick", "main", base + ["-budget", "80s"], timeout=700)
     else:
         res, log = run_streams(exe, "thorough", "main", base + ["-budget", "14m"], timeout=1500)
     if res is None:
@@ -555,7 +555,7 @@ def main(tier, replay):
     if (unexplained or (broken and not findings)) and (not coq.get("ok")):
         # aim the streams at the offending sites, class by class
         plans = []
-        val = [s for s in unexplained if s["class"] in ("assert", "accessor", "keyread", "mapwrite", "reflect", "div", "makelen", "callpanic")]
+        val = [s for s in unexplained if s["class"] in ("assert", "accessor", "keyread", "mapwrite", "reflect", "div", "makelen", "callpanic", "nilparam")]
         if val:
             keys = sorted({s["key"] for s in val if s.get("key")})
             a = ["-streams", "typeconf,meta,states,fieldconf"]
@@ -625,9 +625,14 @@ def main(tier, replay):
         "streams": {k: {"histories": r["histories"], "steps": r["steps"], "messages_sent": r["messages_sent"], "distinct_hostile_inputs": r["distinct_hostile_inputs"],
                         "by_stream": r["streams"], "steps_by_transport": r["steps_by_transport"], "hostile_by_message_type": r["hostile_by_message_type"],
                         "hostile_by_value_kind": r["hostile_by_value_kind"], "keys": r["keys"], "value_kinds": r["value_kinds"],
+                        "histories_by_router_config": r.get("histories_by_router_config"),
                         "worker_restarts": r["worker_restarts"], "isolated_child_runs": r["isolated_child_runs"],
                         "histories_skipped_budget": r["histories_skipped_budget"], "wall_s": r["wall_s"], "race_build": r["race_build"]}
                     for k, r in stats.items()},
+        "router_configurations": "0: disclosure + history on hist.topic/histp. + meta kill/modify, realm2 strict/local-auth/authorizer(deny,fail,mutate)/MetaStrict, bare template; "
+                                 "1: disclosure + history (exact/prefix/wildcard) over every topic the streams publish to, MetaStrict, allow-all Authorizer also for local sessions; "
+                                 "2: realm1 created from the realm template (disclosure, history, strict URIs, local auth); 3 (thorough): everything optional off. "
+                                 "Each history runs against 2 (quick) / 3 (thorough) of them, corpus against 3",
         "liveness_probe": "after every history: publish/event, call/invocation/yield/result, wamp.session.count, fresh attach (every 4th also rawsocket+websocket) by uninvolved sessions",
         "race_tier": race_note,
         "coqchk": coqchk_note,
